@@ -795,6 +795,124 @@ fn typed_case(run: &mut Run, table: &sqlgrep::data_model::TableDefinition, q: &T
     }
 }
 
+// ---------------------------------------------------------------------------------------------------------------
+// stream 5: WHICH error the result table reports (audit 3, L3)
+
+/// one group of the error-order stream, by construction
+struct EoGroup { key: &'static str, rows: usize, vs: Vec<Option<i64>>, big_w: bool, has_s: bool }
+
+/// the transforms that have no value in SOME cells, with the error kind and the groups in which they have none
+/// (a function of the group's rows that is plain from the text: an overflow of `2^62 * 10`, a division by zero,
+/// a function / a BOOLEAN operator over a value of the wrong type)
+const EO_TRANSFORMS: &[(&str, &str)] = &[
+    ("SUM(w) * 10", "UndefinedOperation"),
+    ("1 / (COUNT(*) - 2)", "UndefinedOperation"),
+    ("upper(MIN(v))", "UndefinedFunction"),
+    ("abs(MIN(s))", "UndefinedFunction"),
+    ("MIN(v) AND true", "TypeError"),
+    ("10 / SUM(v)", "UndefinedOperation"),
+];
+
+fn eo_fails(t: usize, g: &EoGroup) -> bool {
+    let nonnull: Vec<i64> = g.vs.iter().filter_map(|x| *x).collect();
+    match t {
+        0 => g.big_w,
+        1 => g.rows == 2,
+        2 => true, // `upper` of an INT or of NULL
+        3 => g.has_s,
+        4 => !nonnull.is_empty(),
+        _ => !nonnull.is_empty() && nonnull.iter().sum::<i64>() == 0,
+    }
+}
+
+/// A directed stream of aggregate statements whose result table has cells without a value in TWO OR THREE different
+/// columns and in different groups, the failing transforms being of different error kinds. The program computes the
+/// table column by column (`extract_result_rows_by_column`) and reports the first error it meets; the property (C03's
+/// last sentence / C04) only demands that AN error is reported and no table printed — that is the oracle here. WHICH
+/// error is compared between the program and the Lean model by the correspondence (`batch` cases): a model that went
+/// row by row would answer another kind on the cases counted `error-order:orders-differ`.
+fn error_order_stream(run: &mut Run, rng: &mut Rng, n: usize) {
+    let defs = format!("{}\n{}", MAIN_DEF, JOIN_DEF);
+    for _ in 0..n {
+        // half of the cases are DIRECTED at statements on which column-major and row-major order meet cells of different
+        // error kinds first (regenerate until the construction says so)
+        let want_differ = rng.chance(1, 2);
+        let mut tries = 0;
+        let (groups, lines, items, having, text, col_first, row_first) = loop {
+            tries += 1;
+            // 2-3 groups in key order a < b < c
+            let ng = 2 + rng.below(2);
+            let mut groups: Vec<EoGroup> = Vec::new();
+            for gi in 0..ng {
+                let rows = 1 + rng.below(3);
+                let v_null = rng.chance(1, 3);
+                let vs: Vec<Option<i64>> = (0..rows).map(|_| if v_null || rng.chance(1, 4) { None } else { Some(rng.range(-2, 2)) }).collect();
+                groups.push(EoGroup { key: ["a", "b", "c"][gi], rows, vs, big_w: rng.chance(1, 3), has_s: rng.chance(1, 2) });
+            }
+            let mut lines: Vec<String> = Vec::new();
+            for g in &groups {
+                for i in 0..g.rows {
+                    let v = g.vs[i].map(|x| x.to_string()).unwrap_or_default();
+                    let w = if g.big_w && i == 0 { "4611686018427387904".to_owned() } else if rng.chance(1, 3) { String::new() } else { rng.range(0, 50).to_string() };
+                    let s = if g.has_s && (i == 0 || rng.chance(1, 2)) { (*rng.pick(&["x", "hello", "10"])).to_owned() } else { "~".to_owned() };
+                    lines.push(format!("{};{};{};;{};", g.key, v, w, s));
+                }
+            }
+            rng.shuffle(&mut lines);
+            // the select list: 2-3 different failing transforms and 0-2 columns that always have a value, in any order
+            let mut ts: Vec<usize> = (0..EO_TRANSFORMS.len()).collect();
+            rng.shuffle(&mut ts);
+            ts.truncate(2 + rng.below(2));
+            let mut items: Vec<(String, Option<usize>)> = ts.iter().map(|&t| (EO_TRANSFORMS[t].0.to_owned(), Some(t))).collect();
+            for _ in 0..rng.below(3) {
+                items.push(((*rng.pick(&["k", "COUNT(*)", "MAX(w)", "MIN(v) + 1", "COUNT(v) * 2"])).to_owned(), None));
+            }
+            rng.shuffle(&mut items);
+            let having = match rng.below(6) {
+                0 => " HAVING 1 / (COUNT(*) - 1) >= 0", // no value on a group of one row
+                1 => " HAVING MAX(w)",                  // no truth value where w is not NULL
+                2 => " HAVING COUNT(*) > 0",
+                _ => "",
+            };
+            let text = format!("SELECT {} FROM t GROUP BY k{}", items.iter().map(|x| x.0.clone()).collect::<Vec<_>>().join(", "), having);
+            // the first cell without a value in column-major and in row-major order (for the direction, the tags and the counters only)
+            let mut col_first: Option<&str> = None;
+            'c: for it in &items { if let Some(t) = it.1 { for g in &groups { if eo_fails(t, g) { col_first = Some(EO_TRANSFORMS[t].1); break 'c; } } } }
+            let mut row_first: Option<&str> = None;
+            'r: for g in &groups { for it in &items { if let Some(t) = it.1 { if eo_fails(t, g) { row_first = Some(EO_TRANSFORMS[t].1); break 'r; } } } }
+            if (col_first != row_first) == want_differ || tries >= 40 {
+                break (groups, lines, items, having, text, col_first, row_first);
+            }
+        };
+        let ng = groups.len();
+        let prepared = match prepare(&defs, &text) {
+            Ok(p) => p,
+            Err(e) => { run.count(&format!("error-order:rejected:{}", e.split(':').next().unwrap_or(""))); continue; }
+        };
+        let files = vec![join_lines(&lines)];
+        let result = run_files(&prepared, &files);
+        let desc = format!("query={} input={:?}", text, lines);
+        let failing_columns = items.iter().filter(|it| it.1.map_or(false, |t| groups.iter().any(|g| eo_fails(t, g)))).count();
+        run.oracle_checks += 1;
+        if result.status == "panic" {
+            run.fail(desc.clone(), "panic:aggregate", "aggregate run panicked".to_owned());
+        } else if col_first.is_some() && !result.status.starts_with("err:") {
+            run.fail(desc.clone(), "aggregate-cell-without-value-not-reported",
+                format!("a cell of the result table has no value ({} column(s) with such cells), an error must be reported; the implementation answered {} and printed {:?}", failing_columns, result.status, result.records()));
+        } else if col_first.is_some() && !result.records().is_empty() {
+            run.fail(desc.clone(), "aggregate-table-printed-with-error", format!("the implementation reports {} and printed {:?}", result.status, result.records()));
+        }
+        let differ = col_first != row_first;
+        run.count(if differ { "error-order:orders-differ" } else { "error-order:orders-agree" });
+        run.count(&format!("error-order:failing-columns:{}", failing_columns));
+        run.count(&format!("error-order:status:{}", result.status));
+        if let Some(case) = batch_case(&prepared, b"", &files, None) {
+            let tag = format!("error-order|cols{}|groups{}|h{}|differ{}|{}", failing_columns.min(3), ng, !having.is_empty() as u8, differ as u8, result.status);
+            run.case_with_desc(case, result.wire(), tag, desc);
+        }
+    }
+}
+
 pub fn run(p: &Params) -> Run {
     let mut run = Run::new("C04");
     let mut rng = Rng::new(p.seed ^ 0x04);
@@ -1024,6 +1142,9 @@ pub fn run(p: &Params) -> Run {
             }
         }
     }
+    // ---- stream 5: which error the result table reports: cells without a value in several columns and groups ----
+    error_order_stream(&mut run, &mut Rng::new(p.seed ^ 0x04e0), p.n(400, 12_000));
+    run.notes.push("stream 5 (error-order): GROUP BY statements with 2-3 transforms of different error kinds that have no value in different groups (overflow of SUM(w) * 10, division by zero in a group of two / with SUM(v) = 0, upper / abs of the wrong type, CASE over an INT), with and without HAVING: an error must be reported and no table printed; WHICH error (the first cell in column-major order) is compared with the Lean model".to_owned());
     run.notes.push("stream 1: free-form aggregate statements (1-4 select items mixing keys, aggregates, transforms; WHERE/GROUP BY/HAVING) over 0-30 lines with 5-80% NULL fields; stream 2: typed statements over TEXT/INT/REAL/BOOLEAN/TIMESTAMP columns with per-(group, column) NULL rates of 0/30/100%, single-row groups, p in {0, .5, .99, 1}, HAVING with hidden aggregates, arithmetic wrappers — compared with an independent reference".to_owned());
     // the end-to-end stream: the same property seen from raw texts and raw file bytes (`e2e.rs`, Lean `Pipeline.runText`)
     crate::e2e::stream(&mut run, &mut Rng::new(p.seed ^ 0xe2e04), p.n(250, 3000), "group");
